@@ -317,6 +317,11 @@ HOSTS = [
     ("fn-kwdefaults", 3, lambda c: ([], Call(Fn(["x"], [Arr(Id("x"), Id("k"), Id("j"))], kps=[("k", c[0]), ("j", c[1])]), [c[2]]))),
     ("args-spread", 3, lambda c: ([Asg("f", _f3())], Call(Id("f"), [c[0], Spread(Arr(c[1], c[2]))]))),
     ("args-dspread", 3, lambda c: ([Asg("f", _f3())], Call(Id("f"), [c[0], DSpread(Obj(("k", c[1]))), DSpread(Obj(("j", c[2])))]))),
+    ("args-prefixed", 3, lambda c: ([Asg("f", _f3())], Call(Id("f"), [Pre("-", c[0]), Pre("!", c[1]), Pre("-", Inf("+", c[2], Int(1)))]))),
+    ("args-prefixed-kw", 3, lambda c: ([Asg("f", _f3())], Call(Id("f"), [Pre("-", c[0])], kw=[("k", Pre("-", c[1])), ("j", Pre("!", c[2]))]))),
+    ("method-args-prefixed", 2, lambda c: ([], PCall(Int(10), "+", [Pre("-", c[0])]) if False else Arr(PCall(Int(10), "+", [Pre("-", c[0])]), PCall(Int(10), "-", [Pre("-", c[1])])))),
+    ("arr-prefixed", 3, lambda c: ([], Arr(Pre("-", c[0]), Pre("!", c[1]), Pre("-", c[2])))),
+    ("obj-prefixed", 2, lambda c: ([], Obj(("a", Pre("-", c[0])), ("b", Pre("!", c[1]))))),
     ("method", 3, lambda c: ([Asg("o", Obj(("m", Fn(["x", "y"], [Arr(Id("x"), Id("y"))], method=True))))], PCall(Say(Id("o")), "m", [c[1], c[2]]) if c[0] is None else
                              PCall(Inf("||", c[0], Id("o")), "m", [c[1], c[2]]))),
     ("callee", 2, lambda c: ([Asg("g", Fn(["x"], [Id("x")]))], Call(Inf("&&", c[0], Id("g")), [c[1]]))),
